@@ -242,7 +242,7 @@ func cmdCheck(args []string) int {
 		}
 	}
 	Discharge(claimed, dir, timeout, 16, tier == "thorough")
-	Discharge(extra, dir, timeout, 16, false)
+	Discharge(extra, dir, 4, 16, false)
 	if tier == "thorough" {
 		secondSolver(claimed, dir, timeout)
 	}
